@@ -29,6 +29,10 @@ WORDS = ["alpha", "beta", "gamma", "delta", "tmp", "cnt", "ptr", "buf", "val", "
 STR_CHARS = "ABCDEFGHIJKLMNOPQRSTUVWXYZabcdefghijklmnopqrstuvwxyz0123456789 .,!?*-+=_"
 R50_CHARS = " ABCDEFGHIJKLMNOPQRSTUVWXYZ$.%0123456789"
 
+# self-address probe: '.' is the address of the statement, i.e. of the first magic word
+DOT_PROBE = ".word 125252, 52525, ."
+DOT_MAGIC = b"\xaa\xaa\x55\x55"
+
 CLASS_RANGE = {
     "reg": (0, 7),
     "rep": (0, 5),
@@ -570,6 +574,10 @@ class FileGen:
 
     def code_stmt(self, out):
         self.need_even(out)
+        if self.rng.random() < 0.04:
+            out.append(Stmt(DOT_PROBE, "dotprobe"))
+            self.g.count_dot_probes(1)
+            return
         out.append(Stmt(self.insn(), "insn"))
 
     def branch_group(self, out):
@@ -600,9 +608,14 @@ class FileGen:
         body = []
         saved = self.in_repeat
         self.in_repeat = True
+        nprobes = 0
         for _ in range(rng.randint(1, 3)):
             k = rng.random()
-            if k < 0.5:
+            if k < 0.15:
+                # self-address probe: two magic words followed by '.', which must hold its own address
+                body.append(DOT_PROBE)
+                nprobes += 1
+            elif k < 0.5:
                 body.append(self.simple_insn())
             elif k < 0.75:
                 body.append(".word " + ", ".join(self.expr("word", allow_positional=False).text
@@ -616,6 +629,8 @@ class FileGen:
         sep = rng.choice(["\n", "\n\t", " \n "])
         text = ".repeat %s {%s%s%s}" % (e.text if e.atomic else angle(e.text), sep, sep.join(body), sep)
         out.append(Stmt(text, "repeat", {"deps": e.deps}))
+        if nprobes:
+            self.g.count_dot_probes(None if e.value is None else nprobes * e.value)
 
     def simple_insn(self):
         """Instruction without label references or complex index expressions (safe in .repeat)."""
@@ -673,6 +688,13 @@ class Gen:
             self.p.update(profile)
         self.marker_ctr = rng.randint(0, 999)
         self.file_ctr = 0
+        self.dot_probes = 0          # how many self-address probes the image must contain (None = unknown)
+
+    def count_dot_probes(self, n):
+        if n is None or self.dot_probes is None:
+            self.dot_probes = None
+        else:
+            self.dot_probes += n
 
     # ---------------------------------------------------------------------------------
     def program(self, cwd=SIMROOT + "/w"):
@@ -730,6 +752,8 @@ class Gen:
             if gf.has_end:
                 pass
         self._add_outputs(prog)
+        # files cut short by '.end' make the expected count unreliable
+        prog.dot_probes = None if any(f.has_end for f in prog.files) else self.dot_probes
         return prog
 
     # ---------------------------------------------------------------------------------
